@@ -7,6 +7,18 @@ HERE = os.path.dirname(os.path.abspath(__file__))
 
 # property -> (technique, level text, level note, design ref)
 CLAIMED = {
+    "C04": (
+        "runtime reference-model monitor over the Scanline event stream of tri_fill: f64 edge-function coverage oracle with a 0.001 px band, structural stream checks (strictly increasing y, no pixel twice, xs length = fragment count), exhaustive half-pixel lattice + adversarial random families, all six vertex orders",
+        "Every ordered vertex triple of a half-pixel lattice (531 441 triangles quick, 4.8 M thorough) and random integer/half-integer/dyadic/float, flat, one-row, sliver, sub-pixel and zero-area triangles (extent ≤ 64 px, all six vertex orders) are filled by the real tri_fill; every pixel centre of the bounding box +1 px is judged: inside and ≥ 0.001 px from every edge ⇒ in exactly one span, outside and ≥ 0.001 px away ⇒ in none. Fans of triangles sharing edges and a vertex are judged on their union. Extents 128..2048 are driven too; there the known f32 edge drift (finding F9) is matched by a narrow drift model, anything larger is a violation.",
+        "f64 edge functions on exact f32 vertices are treated as exact; non-negative coordinates only (the API cannot represent others).",
+        "DESIGN.md §5 C04",
+    ),
+    "C05": (
+        "runtime reference-model monitor over every Frag yielded by Scanline::fragments(): f64 plane-through-vertex-values oracle with perspective division, finiteness monitor, pixel-centre check",
+        "For C04's triangle families with per-vertex reciprocal depths (w ratio up to 10:1) and seven attribute types (scalar, vectors, colours, tuples), every fragment of every scanline is compared with the f64 plane through the three vertex values at its pixel centre: position = centre ± 1e-3, depth and perspective-corrected attribute within 0.5 % of the vertex-value range (+1e-5 relative rounding floor, +0.001 px·|∇| positional slack), and never NaN/inf for area > 1e-6 px² (no slack).",
+        "Strict domain: extent ≤ 64 px. Tolerances as stated; see DESIGN.md §10-2 for the positional slack.",
+        "DESIGN.md §5 C05",
+    ),
     "C03": (
         "runtime reference-model monitor: every clip output is solved back into the input triangle's (u,v) parameter plane in f64 and compared with an independent 2-D convex clip (area bounds, point probes, attribute field, winding), plus bit-exact metamorphic checks (unchanged-if-inside, batch independence)",
         "Each generated clip-space triangle (integer and half-integer lattices incl. the full 5^9 lattice in the thorough tier, random w of either sign with on-plane and ±1-ulp coordinates, frustum-surrounding and degenerate triangles; seven attribute types) is clipped by the real view_frustum::clip and the whole output is judged: no vertex outside any plane beyond 1e-5·scale, every vertex on the input plane and inside the input triangle, attributes equal to the input's linear field, winding kept, covered area between the inside part shrunk and grown by the rounding band, random parameter points covered exactly once/never, wholly-inside ⇒ bit-identical, outside-one-plane ⇒ empty, batch ≡ concatenation bit-for-bit. Held on the executions observed.",
